@@ -30,6 +30,7 @@ class Obligation:
     facts: dict = field(default_factory=dict)
     nontrivial: bool = True
     src: tuple = ()  # (rule-module file, line) of the check.* call that recorded it
+    definite: bool = False
 
     def as_sample(self) -> dict:
         d = {"rule": self.rule, "construct": self.construct, "verdict": self.verdict}
@@ -98,15 +99,19 @@ class Check:
             pass
         return tuple(out)
 
-    def violated(self, rule: str, construct: str, detail: str = "", where: str = "", _src: tuple = (), **facts):
-        self.obligations.append(Obligation(rule, construct, "violated", detail, where, facts, True, _src or self._caller()))
+    def violated(self, rule: str, construct: str, detail: str = "", where: str = "", _src: tuple = (), definite: bool = False, **facts):
+        """definite=True: the verdict comes from a semantic analysis (kinds, CFG paths, normal forms, provenance) even though the rule code around it
+        also matches expression texts — exempt from the textual gate of qv.main.withhold_unrecognised."""
+        ob = Obligation(rule, construct, "violated", detail, where, facts, True, _src or self._caller())
+        ob.definite = definite
+        self.obligations.append(ob)
 
     def decide(self, ok: bool, rule: str, construct: str, detail: str = "", where: str = "",
-               fail_detail: Optional[str] = None, **facts) -> bool:
+               fail_detail: Optional[str] = None, definite: bool = False, **facts) -> bool:
         if ok:
             self.holds(rule, construct, detail, where, **facts)
         else:
-            self.violated(rule, construct, fail_detail or detail, where, _src=self._caller(), **facts)
+            self.violated(rule, construct, fail_detail or detail, where, _src=self._caller(), definite=definite, **facts)
         return ok
 
     def advisory(self, rule: str, construct: str, detail: str = "", where: str = "", **facts):
@@ -279,17 +284,17 @@ class SubCheck:
         if self._ok(construct, where):
             self._c.holds(self._rule, construct, detail, where, nontrivial, **facts)
 
-    def violated(self, rule, construct, detail="", where="", _src=(), **facts):
+    def violated(self, rule, construct, detail="", where="", _src=(), definite=False, **facts):
         if self._ok(construct, where):
-            self._c.violated(self._rule, construct, detail, where, _src=_src or Check._caller(), **facts)
+            self._c.violated(self._rule, construct, detail, where, _src=_src or Check._caller(), definite=definite, **facts)
 
-    def decide(self, ok, rule, construct, detail="", where="", fail_detail=None, **facts):
+    def decide(self, ok, rule, construct, detail="", where="", fail_detail=None, definite=False, **facts):
         if not self._ok(construct, where):
             return ok
         if ok:
             self._c.holds(self._rule, construct, detail, where, **facts)
         else:
-            self._c.violated(self._rule, construct, fail_detail or detail, where, _src=Check._caller(), **facts)
+            self._c.violated(self._rule, construct, fail_detail or detail, where, _src=Check._caller(), definite=definite, **facts)
         return ok
 
     def advisory(self, *a, **k):
